@@ -827,6 +827,46 @@ theorem c13_setup_rules_setUp (h : Host) (p : Pod) :
     · exact eq_of_ruleKey p.hostRules (hostRules_keys p) x r hx' hr hk
     · exact absurd hk (hne r hr)
 
+/-! ### `CleanIPRules`: run at every DEL -/
+
+/-- **Cleaning up after vanished devices removes nothing that belongs to another pod**: a rule that is not bound to a device
+    and is not about the address of a dead rule stays -/
+theorem c13_clean_keeps_others (rules : List Rule) (r : Rule) (hm : r ∈ rules) (ho : r.oif = none)
+    (hd : optIn r.dst (deadNets rules) = false) (hs : optIn r.src (deadNets rules) = false) : r ∈ cleanRules rules := by
+  unfold cleanRules
+  simp [List.mem_filter, hm, ho, hd, hs]
+
+/-- … and every device-bound rule of the pod priorities goes, with the address-only rules for its address -/
+theorem c13_clean_removes_dead (rules : List Rule) (r : Rule) (hm : r ∈ cleanRules rules) (hp : isPodPrio r = true) :
+    r.oif = none ∧ optIn r.dst (deadNets rules) = false ∧ optIn r.src (deadNets rules) = false := by
+  unfold cleanRules at hm
+  have hm2 := (List.mem_filter.mp hm).2
+  simp only [hp, Bool.true_and, Bool.not_eq_true', Bool.or_eq_false_iff] at hm2
+  refine ⟨?_, hm2.1.2, hm2.2⟩
+  cases h : r.oif with
+  | none => rfl
+  | some x => simp [h] at hm2
+
+/-- without device-bound rules there is nothing to clean -/
+theorem c13_clean_noop (rules : List Rule) (h : ∀ r ∈ rules, r.oif = none) : cleanRules rules = rules := by
+  have hd : deadRules rules = [] := by
+    unfold deadRules
+    apply List.filter_eq_nil_iff.mpr
+    intro r hr; simp [h r hr]
+  unfold cleanRules deadNets
+  rw [hd]
+  apply List.filter_eq_self.mpr
+  intro r hr
+  have h1 : optIn r.dst [] = false := by unfold optIn; cases r.dst <;> simp
+  have h2 : optIn r.src [] = false := by unfold optIn; cases r.src <;> simp
+  simp [h r hr, h1, h2]
+
+example :
+    let dead : Rule := { prio := fromContainerPrio, src := some (Pfx.host .v4 0x0a0000c8), oif := some "gone", table := 1002 }
+    let old : Rule := { prio := toContainerPrio, dst := some (Pfx.host .v4 0x0a0000c8), table := mainTable }
+    let live : Rule := { prio := toContainerPrio, dst := some (Pfx.host .v4 0x0a00000a), table := mainTable }
+    cleanRules [mainRule, old, live, dead] = [mainRule, live] := by decide
+
 /-! ### teardown -/
 
 theorem prio_ne : toContainerPrio ≠ fromContainerPrio ∧ mainRule.prio ≠ toContainerPrio ∧ mainRule.prio ≠ fromContainerPrio := by
